@@ -623,6 +623,8 @@ def stream_protocol(R, T):
         for name, sp in sessions:
             if force.get(Data, 5) < 3 and any(ln['kind'] == 'join_on_key' for ln in sp['links']):
                 continue      # key joins are not recorded before Data v3: nothing to compare them with
+            if force.get(Data, 5) < 4 and 'ElementSubsetState' in json.dumps(sp['subsets']):
+                continue      # an ElementSubsetState is bound to its dataset by the uuid, which is recorded since Data v4 only
             asp = aspects
             if name == 'regiondata' and Data in force:
                 continue      # RegionData has its own single protocol
